@@ -26,10 +26,10 @@ T = {
          "vf/ref/lexical.py is my reading of FIX 4.4 Vol.1 data types; doubtful lexemes are in the unspecified zone"),
  "C04": ("exploration", "per-frame step monitor (rules R1-R4 on delivery, expected-number movement, ResendRequests) on a live connection fed by a scripted adversarial peer", "§4 C04",
          "A real logged-on connection (both roles; starts ACTIVE, RESENDREQ_AWAITING after a real gap, after a too-high Logon) is fed one frame at a time; ALL histories of length 3 (quick) / 4 (thorough) over a 24-symbol alphabet relative to the connection's own expected number, plus random histories of length 6-14 over 40 symbols; after every frame: delivery only at the expected number and once, expected number never moves backwards or past a gap, exactly one ResendRequest(BeginSeqNo=expected) per gap, delivered numbers strictly increase.",
-         "a history is judged up to its first violation; Reset-mode SequenceReset is outside rule R3; at most one benign inbound ResendRequest per history (C06 judges servicing)"),
+         "a history is judged up to its first violation; Reset-mode SequenceReset is outside rule R3; replies to inbound ResendRequests are judged by C06"),
  "C05": ("exploration", "invariant at quiescent points: tapped frames vs journal rows vs stored and live counters after every step of random send histories", "§4 C05",
          "Random histories of 10-40 steps on a real connection (both roles, counters starting at 1, 2, 10^6 or loaded from a pre-populated journal): every kind of send in every state the API reaches, interleaved with inbound frames that cause sends; after each step every new tapped frame carries the next number, the journal returns exactly the tapped bytes under that number, stored next-out == last+1 == live counter, and a refused send changes nothing.",
-         "inbound ResendRequest servicing (C06) and transport faults (C07/C09) are excluded from these histories"),
+         "transport faults (C07/C09) are excluded from these histories; replies to inbound ResendRequests are judged by C06"),
  "C06": ("exploration", "independent chain walk over the tapped reply to a ResendRequest + side-effect comparison (counters, journal rows, state)", "§4 C06",
          "Outbound journals built through the real send path: every sequence of length <= 3 (quick) / <= 4 (thorough) over 8 slot kinds (incl. application types that share a first character with session types) plus random journals, optionally after an earlier serviced request, x (BeginSeqNo, EndSeqNo) grids incl. invalid ranges x {ACTIVE, RESENDREQ_AWAITING}; the reply must be a contiguous chain from BeginSeqNo to min(End,last): retransmissions only of journaled accepted application messages with PossDupFlag/OrigSendingTime and identical body, everything else gap-filled, nothing beyond the range, no side effects outside it.",
          "for invalid requests only the side-effect clause is judged; OrigSendingTime of a retransmitted earlier copy may be either the copy's 122 or its 52"),
